@@ -935,24 +935,7 @@ func runC11(c *Ctx) {
 		o.Fail(sel.Pos(), "the enqueue blocks (the read loop would stall under connLock)")
 	}
 	// a found conn is returned as is: the lookup's ok edge returns the looked-up conn
-	var retLeaves []ssa.Value
-	var expand func(v ssa.Value, d int)
-	expand = func(v ssa.Value, d int) {
-		for _, e := range phiLeaves(v) {
-			if call, ok := e.(*ssa.Call); ok && d < unitDepth {
-				if h := helperCallee(call); h != nil {
-					for _, rv := range returnedValues(h, 0) {
-						expand(rv, d+1)
-					}
-					continue
-				}
-			}
-			retLeaves = append(retLeaves, e)
-		}
-	}
-	for _, v := range returnedValues(G, 0) {
-		expand(v, 0)
-	}
+	retLeaves := returnedValuesU(G, 0)
 	for _, v := range []int{0} {
 		_ = v
 		for _, e := range retLeaves {
